@@ -3,11 +3,14 @@ from __future__ import annotations
 
 from sqlglot import tokens
 from sqlglot.dialects.dialect import Dialect, DialectType
+
+# The Trino and Hive dialects must be loaded before the Athena generator: its delegates copy their generators' tables,
+# which the dialect metaclass only completes (e.g. unsupported JSON path parts) when the dialect class is created
+from sqlglot.dialects.trino import Trino
+from sqlglot.dialects.hive import Hive
 from sqlglot.generators.athena import AthenaGenerator
 from sqlglot.parsers.athena import AthenaParser
 from sqlglot.tokens import TokenType, Token
-from sqlglot.dialects.trino import Trino
-from sqlglot.dialects.hive import Hive
 
 
 # The helpers come first: another thread may resolve the Athena class (through the dialect registry) as soon as the
